@@ -175,11 +175,8 @@ def gen_block(cx, depth, scopes, tasks, n=None, top=False):
         elif k == 'cclose' and p.get('chans'):
             out.append(['cclose', rng.randrange(p['chans'])])
         elif k == 'citer' and p.get('chans') and depth > 0:
-            # (one subscription per activity at a time: no channel reads inside the loop body)
-            saved = cx.p
-            cx.p = dict(saved, weights={k: v for k, v in saved['weights'].items() if k not in ('cget', 'citer')})
+            # (the loop body may read the same channel again: subscriptions are numbered per channel)
             body = gen_block(cx, 0, scopes, tasks, rng.randint(0, 2))
-            cx.p = saved
             out.append(['citer', rng.randrange(p['chans']), rng.randint(0, 4)] + body)
         elif k == 'settracked' and p.get('tracked'):
             out.append([rng.choice(['settracked', 'addtracked']), rng.randrange(len(p['tracked'])), rng.randint(-2, 6)])
